@@ -29,6 +29,7 @@ type Op struct {
 	Nano  int64  `json:"nano,omitempty"`
 	Sub   string `json:"sub,omitempty"`
 	AckIx int    `json:"ack_ix,omitempty"` // save: save the offset acknowledged by that earlier append op; -1: OffsetOldest (rewind to the start)
+	ViaB  bool   `json:"via_b,omitempty"`  // save: through the second handle, if it is open
 }
 
 type Dump struct {
@@ -94,7 +95,11 @@ func run(db, script string) int {
 				os.Stdout.Write([]byte(fmt.Sprintf("SKIP %d\n", i)))
 				continue
 			}
-			if err := st.SaveOffset(ctx, op.Sub, eventbus.Offset(off)); err != nil {
+			saver := st
+			if op.ViaB && stB != nil {
+				saver = stB // the other component of the process saves this one
+			}
+			if err := saver.SaveOffset(ctx, op.Sub, eventbus.Offset(off)); err != nil {
 				os.Stdout.Write([]byte(fmt.Sprintf("NACK %d %v\n", i, err)))
 				continue
 			}
